@@ -81,12 +81,17 @@ def push_data(data):
 
 def read_data(token, stream):
     if token < OP_PUSHDATA1:
-        return stream.read(token)
-    if token == OP_PUSHDATA1:
-        return stream.read(stream.read_uint8())
-    if token == OP_PUSHDATA2:
-        return stream.read(stream.read_uint16())
-    return stream.read(stream.read_uint32())
+        size = token
+    elif token == OP_PUSHDATA1:
+        size = stream.read_uint8()
+    elif token == OP_PUSHDATA2:
+        size = stream.read_uint16()
+    else:
+        size = stream.read_uint32()
+    data = stream.read(size)
+    if len(data) != size:
+        raise struct.error('push runs past the end of the script')
+    return data
 
 
 # opcode for OP_1 - OP_16
